@@ -236,7 +236,38 @@ type scenario struct {
 	name string
 	ops  []string
 	prep func(e *env) func(g int, op string, it int, r *mon.Rand)
+	// opsFor (optional) gives goroutine g its own operation list (roles); nil: every goroutine draws from ops
+	opsFor func(g int) []string
+	// after (optional) hands the scenario's own per-goroutine tallies to the run once all goroutines have finished
+	after func(run *mon.Run)
 }
+
+// The harness must not synchronise the goroutines of a scenario with one another on the hot path (no shared atomics,
+// no shared mutex): every such edge orders the accesses under test and hides a race from the detector. Tallies are
+// therefore kept per goroutine and summed after the join.
+type perG [64]int64
+
+func (p *perG) sum() (n int64) {
+	for _, v := range p {
+		n += v
+	}
+	return
+}
+
+// linkPrev* : family "block-link-prev". A prepared chain of previous blocks (one per episode of linkPrevEpisode
+// iterations, so that tickets keep arriving instead of saturating) each registered as notarized in its own round.
+const (
+	linkPrevBlocks  = 256
+	linkPrevEpisode = 48
+)
+
+var (
+	linkPrevFilled, linkPrevEmpty, linkPrevPreset perG // one process runs the scenario once
+
+	linkPrevLinkOps  = []string{"SetPreviousBlock", "SetPreviousBlock", "SetPreviousBlock", "SetPreviousBlockPresetTickets"}
+	linkPrevWriteOps = []string{"AddVerificationTicket", "AddVerificationTicket", "MergeVerificationTickets", "AddNotarizedTwin", "SetBlockNotarized"}
+	linkPrevReadOps  = []string{"GetVerificationTickets", "VerificationTicketsSize", "UnknownTickets", "IsBlockNotarized", "GetNotarizedBlocks"}
+)
 
 func ticket(i int) *block.VerificationTicket {
 	return &block.VerificationTicket{VerifierID: fmt.Sprintf("%064x", i+1), Signature: fmt.Sprintf("sig-%d", i)}
@@ -295,6 +326,90 @@ func scenarios() []scenario {
 						_ = b.GetPrevBlockVerificationTickets()
 					}
 				}
+			}},
+		// A miner generating round n+1 links its fresh block (no previous-block tickets yet) to the block of round n
+		// while late verification tickets and notarization messages (a second object of the same block, carrying
+		// other tickets, added to the round) for that block of round n still arrive. Goroutines 0-1 only link
+		// (they never touch the previous block otherwise, so nothing but the code's own locking orders them with the
+		// writers), 2-3 only deliver tickets, 4 only reads, 5-7 draw from everything.
+		{name: "block-link-prev",
+			ops: append(append(append([]string{}, linkPrevLinkOps...), linkPrevWriteOps...), linkPrevReadOps...),
+			opsFor: func(g int) []string {
+				switch {
+				case g < 2:
+					return linkPrevLinkOps
+				case g < 4:
+					return linkPrevWriteOps
+				case g == 4:
+					return linkPrevReadOps
+				}
+				return nil
+			},
+			prep: func(e *env) func(int, string, int, *mon.Rand) {
+				type prevSet struct {
+					prev  *block.Block
+					twins [2]*block.Block
+					rd    *round.Round
+				}
+				sets := make([]*prevSet, linkPrevBlocks)
+				for k := range sets {
+					ps := &prevSet{prev: c44Block(20, k), rd: round.NewRound(20)}
+					for i := 0; i < k%4; i++ { // every fourth previous block starts without any ticket
+						ps.prev.AddVerificationTicket(ticket(i))
+					}
+					for i := range ps.twins {
+						ps.twins[i] = c44Block(20, k) // same hash, another object
+						ps.twins[i].AddVerificationTicket(ticket(64 + i))
+					}
+					ps.rd.AddNotarizedBlock(ps.prev)
+					sets[k] = ps
+				}
+				return func(g int, op string, it int, r *mon.Rand) {
+					ps := sets[(it/linkPrevEpisode)%len(sets)]
+					prev := ps.prev
+					switch op {
+					case "SetPreviousBlock":
+						nb := c44Block(21, it) // the block-generation path: nothing set but round, hash, rank, miner
+						nb.SetPreviousBlock(prev)
+						if nb.PrevBlockVerificationTicketsSize() > 0 {
+							linkPrevFilled[g]++
+						} else {
+							linkPrevEmpty[g]++
+						}
+					case "SetPreviousBlockPresetTickets": // a received block carries the tickets already
+						nb := c44Block(21, it)
+						nb.SetPrevBlockVerificationTickets([]*block.VerificationTicket{ticket(r.Intn(64))})
+						nb.SetPreviousBlock(prev)
+						if nb.PrevBlockVerificationTicketsSize() == 1 {
+							linkPrevPreset[g]++
+						}
+					case "AddVerificationTicket":
+						prev.AddVerificationTicket(ticket(r.Intn(64)))
+					case "MergeVerificationTickets":
+						prev.MergeVerificationTickets([]*block.VerificationTicket{ticket(r.Intn(64)), ticket(r.Intn(64))})
+					case "AddNotarizedTwin": // a notarization message: same block, other object, one more ticket
+						tw := ps.twins[r.Intn(len(ps.twins))]
+						tw.AddVerificationTicket(ticket(64 + r.Intn(64)))
+						ps.rd.AddNotarizedBlock(tw)
+					case "SetBlockNotarized":
+						prev.SetBlockNotarized()
+					case "GetVerificationTickets":
+						_ = prev.GetVerificationTickets()
+					case "VerificationTicketsSize":
+						_ = prev.VerificationTicketsSize()
+					case "UnknownTickets":
+						_ = prev.UnknownTickets([]*block.VerificationTicket{ticket(r.Intn(128))})
+					case "IsBlockNotarized":
+						_ = prev.IsBlockNotarized()
+					case "GetNotarizedBlocks":
+						_ = len(ps.rd.GetNotarizedBlocks())
+					}
+				}
+			},
+			after: func(run *mon.Run) {
+				run.Count("link-prev:fresh-block-got-tickets", linkPrevFilled.sum())
+				run.Count("link-prev:fresh-block-prev-had-none", linkPrevEmpty.sum())
+				run.Count("link-prev:preset-tickets-kept", linkPrevPreset.sum())
 			}},
 		{name: "round-notarized",
 			ops: []string{"AddNotarizedBlock", "AddNotarizedBlock", "GetNotarizedBlocks", "GetNotarizedBlocks", "GetHeaviestNotarizedBlock", "GetBestRankedNotarizedBlock", "AddProposedBlock", "GetProposedBlocks",
@@ -507,10 +622,16 @@ func c44StressChild(tier string, rep int) int {
 			go func(g int) {
 				defer wg.Done()
 				r := mon.NewRand(seed).Fork(fmt.Sprintf("c44:%s:%d:%d", sc.name, rep, g))
+				ops := sc.ops
+				if sc.opsFor != nil {
+					if o := sc.opsFor(g); len(o) > 0 {
+						ops = o
+					}
+				}
 				for atomic.LoadInt32(&start) == 0 {
 				}
 				for it := 0; it < iters; it++ {
-					op := sc.ops[r.Intn(len(sc.ops))]
+					op := ops[r.Intn(len(ops))]
 					func() {
 						defer func() {
 							if p := recover(); p != nil {
@@ -536,6 +657,9 @@ func c44StressChild(tier string, rep int) int {
 		}
 		if panics > 0 {
 			run.Count("panics:"+sc.name, panics)
+		}
+		if sc.after != nil {
+			sc.after(run)
 		}
 		run.Count("scenario_runs", 1)
 		run.Sample(map[string]interface{}{"scenario": sc.name, "goroutines": G, "ops_per_goroutine": counts[0]})
@@ -634,7 +758,7 @@ func c44VtxChild(tier string, rep int) (code int) {
 
 func c44Parent(tier string) int {
 	run := mon.NewRun("C44", tier, "exploration",
-		"8 goroutines per scenario draw exported round/block operations from a VERIF_SEED stream (7 scenarios on shared rounds and blocks) plus miner ValidateTransactions on 6-batch blocks with failing batches, all under the race detector, 5 repetitions; "+
+		"8 goroutines per scenario draw exported round/block operations from a VERIF_SEED stream (8 scenarios on shared rounds and blocks, one of them with roles: fresh blocks linked by SetPreviousBlock to a previous block that receives tickets and notarization messages) plus miner ValidateTransactions on 6-batch blocks with failing batches, all under the race detector, 5 repetitions; "+
 			"distinct = distinct (scenario, operation) driven concurrently; a violation is a distinct pair of entry points named by the two stacks of a DATA RACE report")
 	to := 4 * time.Minute
 	if tier == "thorough" {
@@ -745,6 +869,12 @@ func c44Parent(tier string) int {
 		run.RequireMin("vtx:all-valid:ok", 5)
 	}
 	run.RequireMin("scenario_runs", int64(reps*len(scenarios())))
+	// family block-link-prev: fresh blocks linked to a previous block that is receiving tickets
+	run.RequireMin("ops:block-link-prev:SetPreviousBlock", int64(reps)*2000)
+	run.RequireMin("link-prev:fresh-block-got-tickets", int64(reps)*1500)
+	run.RequireMin("ops:block-link-prev:AddVerificationTicket", int64(reps)*1000)
+	run.RequireMin("ops:block-link-prev:MergeVerificationTickets", int64(reps)*500)
+	run.RequireMin("ops:block-link-prev:AddNotarizedTwin", int64(reps)*500)
 	run.Assume("the race detector only reports races on interleavings that the run produced (5 repetitions x 8 goroutines per scenario); absence of a report is not absence of a race")
 	run.Assume("zap logging is replaced by a no-op logger so that the logger's own mutex does not order the accesses under test")
 	run.Assume("ValidateTransactions is driven on a real miner chain over the world's state; no networking, no block generation")
